@@ -80,7 +80,7 @@ def judge(case, res):
 def run(ctx):
     n = ctx.scale(900, 25000)
     rng = ctx.rng
-    cases = [semrun.make_case(rng) for _ in range(n)]
+    cases = [semrun.make_case(rng, profile={'punct': True} if i % 2 else None) for i in range(n)]
     # repeated uses of one definition, on purpose (this is where shared mutable tokens bite)
     import gen
     for _ in range(n // 3):
